@@ -211,6 +211,16 @@ func (lex *Lexer) Reset() {
 	lex.priorRune = [20]rune{}
 }
 
+// inStringOrRune reports whether the runes seen so far end
+// inside a double-quoted string or a char literal.
+func (lex *Lexer) inStringOrRune() bool {
+	switch lex.state {
+	case LexerStrLit, LexerStrEscaped, LexerRuneLit, LexerRuneEscaped:
+		return true
+	}
+	return false
+}
+
 func (lex *Lexer) EmptyToken() Token {
 	return Token{}
 }
